@@ -243,3 +243,64 @@ func HC07_compose_L3() {
 	checkSteps("C07", dm, out, vs)
 	vh.WellFormed("C07.result", &out.Choice.Result, dm.ChoseToMake)
 }
+
+//verif:bounds C07 HC07_compose_ids: sequences of length 3 and 4 (the quantifier's maximum) over {concealment, mixing, anchoring/newCriterion, omission of one criterion in seeded-random order}: the shuffle draws of every omission are symbolic (every criterion that can be omitted is a path), all other draws follow a fixed pattern and numeric parameters are fixed numbers; K=2 criteria, A=3; methods weightedSum and majorityHeuristic (quick) / all seven (thorough); sequences that would omit the last criterion are outside the domain
+//verif:harness HC07_compose_ids mode=REAL reach=four-fired,added-after-omission,evaluate-returned
+func HC07_compose_ids() {
+	method := "weightedSum"
+	if rt.Thorough() {
+		method = rt.OneOf("method", Methods...)
+	} else {
+		method = rt.OneOf("method", "weightedSum", "majorityHeuristic")
+	}
+	alphabet := []string{"criteriaConcealment", "criteriaMixing", "anchoring/newCriterion", "criteriaOmission"}
+	L := rt.IntRange("length", 3, 4)
+	var vs []string
+	cnt := 2
+	addedAfterOmission, omitted := false, false
+	for i := 0; i < L; i++ {
+		v := rt.OneOf([]string{"bias1", "bias2", "bias3", "bias4"}[i], alphabet...)
+		switch {
+		case v == "criteriaOmission":
+			cnt--
+			omitted = true
+		case v == "criteriaMixing" && cnt < 2:
+		default:
+			cnt++
+			addedAfterOmission = addedAfterOmission || omitted
+		}
+		if cnt < 1 {
+			return // a bias that removes every criterion is outside the domain
+		}
+		vs = append(vs, v)
+	}
+	o := ReqOpts{Method: method, A: 3, K: 2, Considered: 3, Levels: 1, ElectreThresholds: "qp", Values: 1, ConcreteParams: true}
+	rt.SetDrawMode(rt.IntRange("draw-pattern", 1, rt.Pick(1, 2)))
+	dm := Request(o)
+	for i, v := range vs {
+		if v == "criteriaOmission" {
+			seed := int64(31 + i)
+			rt.SymbolicSeed(seed)
+			dm.Biases = append(dm.Biases, Bias(v, map[string]interface{}{"ratio": 0.125, "min": float64(1), "max": float64(1), "ordering": "random", "randomSeed": float64(seed)}))
+			continue
+		}
+		dm.Biases = append(dm.Biases, Bias(v, DefaultPropsOpt(v, dm, []string{"b1.", "b2.", "b3.", "b4."}[i], true)))
+	}
+	c07known(method, vs)
+	out := Decide(dm)
+	rt.Assert("C07.answered-with-a-ranking", !out.Panicked)
+	if out.Panicked {
+		return
+	}
+	if len(out.Rec.Steps) == 4 && !out.Rec.Steps[3].Panicked {
+		rt.Reach("four-fired")
+	}
+	if addedAfterOmission {
+		rt.Reach("added-after-omission")
+	}
+	if out.Rec.EvaluateReturned {
+		rt.Reach("evaluate-returned")
+	}
+	checkSteps("C07", dm, out, vs)
+	vh.WellFormed("C07.result", &out.Choice.Result, dm.ChoseToMake)
+}
